@@ -19,7 +19,7 @@ import (
 
 // The checkpoint leg of C29.
 //
-// One case in c29CkptOneIn is, after its plain run, executed a second time
+// One case in c29CkptOneIn (in expectation) is, after its plain run, executed a second time
 // inside a real simulation.Simulation (the connector gets the simulation as
 // its registrar, the devices are modeling.Components with a plain-JSON State):
 //
@@ -33,7 +33,7 @@ import (
 // cut lies between two time steps).
 
 const (
-	c29CkptOneIn    = 4
+	c29CkptOneIn    = 5
 	c29BuildID      = "verif-nocchk-c29"
 	c29WorkerCases  = 12 // resume jobs served by one child process before it is replaced
 	sigCkptDiffers  = "ckpt-vs-uninterrupted:"
